@@ -17,10 +17,22 @@ def to_int(prog, t, v):
     return v
 
 
+def leaf_value(prog, call, snap, p, t):
+    """value of a leaf in a snapshot; the size leaf of a random-size list is the exposed length, elements
+    beyond it do not exist (placeholder = first value of the domain)"""
+    if t[0] == "size":
+        return len(snap_get(snap, p[:-1]))
+    if isinstance(p[-1], int):
+        l = snap_get(snap, p[:-1])
+        if p[-1] >= len(l):
+            return list(R.leaf_domain(prog, t))[0]
+    return snap_get(snap, p)
+
+
 def post_env(call, post):
     env = {}
     for p, t in call.rand_leaves:
-        env[p] = snap_get(post, p)
+        env[p] = leaf_value(call.prog, call, post, p, t)
     return env
 
 
@@ -28,6 +40,10 @@ def check_type(call, post, prog):
     """every random leaf inside its declared type"""
     bad = []
     for p, t in call.rand_leaves:
+        if t[0] == "size":
+            continue
+        if isinstance(p[-1], int) and p[-1] >= len(snap_get(post, p[:-1])):
+            continue
         v = snap_get(post, p)
         if t[0] == "int":
             w, s = t[1], t[2]
@@ -46,7 +62,9 @@ def check_values(call, post):
     return call.violated(env)
 
 
-def leaf_model_map(sess, inst, call):
+def leaf_model_map(sess, inst, call, ev=None):
+    if ev is not None and ev.get("leaf_models") is not None:
+        return ev["leaf_models"]
     m = {}
     for p, t in call.rand_leaves:
         fm = sess.model_at(inst, list(p))
@@ -69,7 +87,10 @@ def pointwise(sess, inst, ev, max_points=1 << 14, sols=None):
     if call.domain_size() > max_points:
         out["status"] = "domain-too-large"
         return out
-    lm = leaf_model_map(sess, inst, call)
+    if call.has_random_size():
+        out["status"] = "random-size-list"
+        return out
+    lm = leaf_model_map(sess, inst, call, ev)
     paths = [p for p, _ in call.rand_leaves]
     types = dict(call.rand_leaves)
     doms = {p: list(R.leaf_domain(prog, t)) for p, t in call.rand_leaves}
@@ -149,7 +170,7 @@ def bounds_check(sess, inst, ev, sols):
     if len(recs) != 1:
         return [], {"status": "no-single-record"}
     rec = recs[0]
-    lm = leaf_model_map(sess, inst, call)
+    lm = leaf_model_map(sess, inst, call, ev)
     by_path = {p: fid for fid, (p, t) in lm.items()}
     paths = [p for p, _ in call.rand_leaves]
     viol = []
